@@ -219,7 +219,8 @@ def terminate_all(ctx):
                 for x in a.producer[1]["args"]:
                     at |= b.prov.operand_atoms(x)
                 sends_first = any(aw.callee in {r.fn_of(s).name for s in senders} and a.into_bb in b.reach_from(aw.into_bb) for aw in awaits(b))
-                if atom_has_field(at, "target_actor_join_handles") or any("JoinHandle" in str(x) for x in at):
+                argl = operand_local(a.producer[1]["args"][0]) if a.producer[1]["args"] else None
+                if argl is not None and re.search(r"Vec<async_std::task::JoinHandle<\(\)>>", b.locals[argl]["ty"]):
                     joined = True
                     ctx.check(sends_first, f"{short(b.name)}/join-after-terminate", [site(b, a.into_bb)], "the actors are joined before (or without) being told to terminate: shutdown hangs")
     ctx.check(joined, "join-all", [], "shutdown does not await the actors' join handles: zinoma can exit while processes are still being killed")
